@@ -34,7 +34,7 @@ CLAIMS = {
    "DESIGN.md section 4 C19, E8"),
  "C13": ("other",
    "def-use and dominance analysis on go/ssa of both sides of the status file: constants with the polarity of the writer's bool parameter vs. the reader's switch cases and what each case feeds into the device-policy variable; must-pass (post-dominance) search in do-approve",
-   "Decides the structural core: writer and reader agree on every status constant and its meaning (success accepted with its policy, failure not accepted, UPTODATE accepted, DIFF lists, sticky DIFF with the approved-since exception, compare consulted only when later than the accepted approve); the reader cannot abort and lists the zero value; all parts (code, ipv6, raw, bz2) are compared; in do-approve every path after the session updates the status and writes END:, and FAILED/return 1 derive exactly from the session result; the recorded policy is a parameter of the status writer and derives from the same resolution of `current` as the code file handed to the session. Not decided: sufficiency of the two-slot encoding over all histories.",
+   "Decides the structural core: writer and reader agree on every status constant and its meaning (success accepted with its policy, failure not accepted, UPTODATE accepted, DIFF lists, sticky DIFF with the approved-since exception, compare consulted only when later than the accepted approve); the reader cannot abort and lists the zero value; all parts (code, ipv6, raw, bz2) are compared; in do-approve every path after the session updates the status and writes END:, and FAILED/return 1 derive exactly from the session result; the recorded policy is a parameter of the status writer and derives from the same resolution of `current` as the code file handed to the session; both sides of the code comparison are whole file contents. Not decided: sufficiency of the two-slot encoding over all histories.",
    "Trusted: go/ssa; shared struct type makes field names agree. Histories, clocks and file removal are runtime matters.",
    "DESIGN.md section 4 C13"),
  "C09": ("other",
@@ -49,17 +49,17 @@ CLAIMS = {
    "DESIGN.md section 4 C15"),
  "C03": ("other",
    "field-access sets on go/ssa over call-graph closures (change-state agreement R-HC, object-kind completeness R-FC), inter-procedural string-pattern evaluation of every emitted PAN-OS command (escaping), guard-set tables for decision sites and for every store into a planner mark, accumulator-growth rule, loop-carried-state (header phi) audit",
-   "Only the structural part of convergence is decided: the change list stored by GetChanges is what HasChanges/ShowChanges/ApplyCommands read; MergeSpoc merges every object kind of a vsys (rules, addresses, address-groups, services, service-groups) and the transfer/remove phases visit all four object kinds; every non-constant part of an emitted command is URL-escaped; the unique-name decisions and every store into the marks needed / nameOnDevice keep their audited controlling conditions; collected commands are never truncated or dropped; no unaudited state crosses loop iterations. Convergence of the rule/member diff itself (executing the commands on an XML tree) is NOT decided — that needs a device model. Two genuine defects found by these rules were repaired (fix: e7da768, 904a6b3).",
+   "Only the structural part of convergence is decided: the change list stored by GetChanges is what HasChanges/ShowChanges/ApplyCommands read; MergeSpoc merges every object kind of a vsys (rules, addresses, address-groups, services, service-groups) and the transfer/remove phases visit all four object kinds; every non-constant part of an emitted command is URL-escaped; the unique-name decisions and every store into the marks needed / nameOnDevice keep their audited controlling conditions; collected commands are never truncated or dropped; no unaudited state crosses loop iterations; every comparator (rules, addresses, services, protocols, ports, groups) reads every exported field of the compared type or the field is exempt with a reason. Convergence of the rule/member diff itself (executing the commands on an XML tree) is NOT decided — that needs a device model. Two genuine defects found by these rules were repaired (fix: e7da768, 904a6b3).",
    "Trusted: go/ssa, call graph. Explicitly not covered: Myers-diff position logic, incremental-vs-replace heuristic, group reuse.",
    "DESIGN.md section 4 C03-C05"),
  "C04": ("other",
    "field-access sets on go/ssa over call-graph closures (R-HC, R-FC) for package nsx; guard-set tables for decision sites and for every store into a planner mark; accumulator-growth rule; loop-carried-state audit",
-   "Only the structural part of convergence is decided: change-state agreement between GetChanges, HasChanges, ShowChanges and ApplyCommands; MergeSpoc merges policies, groups and services and the planner reads all three kinds of both configurations; unique-id generation and every store into needed / nameOnDevice keep their audited controlling conditions (a device group is taken over only if not already needed); collected requests are never dropped; no unaudited state crosses loop iterations. Convergence of rule/group equalisation is NOT decided (needs executing the REST calls on a manager model).",
+   "Only the structural part of convergence is decided: change-state agreement between GetChanges, HasChanges, ShowChanges and ApplyCommands; MergeSpoc merges policies, groups and services and the planner reads all three kinds of both configurations; unique-id generation and every store into needed / nameOnDevice keep their audited controlling conditions (a device group is taken over only if not already needed); collected requests are never dropped; no unaudited state crosses loop iterations; the rule comparator (or a comparison key built from a rule) takes every exported field into account. Convergence of rule/group equalisation is NOT decided (needs executing the REST calls on a manager model).",
    "Trusted: go/ssa, call graph.",
    "DESIGN.md section 4 C03-C05"),
  "C05": ("other",
    "field-access sets on go/ssa incl. trigger sub-fields of the struct-valued change (R-HC), R-FC for package linux; guard-set table for the route decisions; loop-carried-state (header phi) audit of the parsers",
-   "Only the structural part is decided: every sub-field of the change that ApplyCommands acts on (routes, iptables) is read by HasChanges and ShowChanges — necessary for 'no change is reported only for an equivalent device' and invisible to drc FILE1 FILE2 tests; MergeSpoc and diffConfig handle both iptables and routes; the route delete/replace decisions keep their audited conditions; in the iptables/route parsers no unaudited variable keeps its value from one loop iteration to the next (a per-option flag without reset changes what is compared). Normaliser equivalence and route replacement semantics are NOT decided.",
+   "Only the structural part is decided: every sub-field of the change that ApplyCommands acts on (routes, iptables) is read by HasChanges and ShowChanges — necessary for 'no change is reported only for an equivalent device' and invisible to drc FILE1 FILE2 tests; MergeSpoc and diffConfig handle both iptables and routes; the route delete/replace decisions keep their audited conditions; in the iptables/route parsers no unaudited variable keeps its value from one loop iteration to the next (a per-option flag without reset changes what is compared); no Trim cutset is a suffix mistaken for a character set. Normaliser equivalence and route replacement semantics are NOT decided.",
    "Trusted: go/ssa, call graph.",
    "DESIGN.md section 4 C03-C05"),
  "C07": ("other",
